@@ -73,7 +73,7 @@ def readHeader (r : Rd) : Except Err Rd :=
   | none => .error .eof
   | some (n, r1) =>
     let buf := r.s.take n
-    if n ≠ 12 then .error .other
+    if n ≠ 12 then .error .eof                     -- shorter than the header: "no records" (io.EOF)
     else if buf.take 8 ≠ magic then .error .other
     else if le16 buf 8 ≠ 1 then .error .other
     else
@@ -88,29 +88,6 @@ def readHeader (r : Rd) : Except Err Rd :=
 def overlay (old : Bytes) (off : Nat) (bs : Bytes) : Bytes :=
   old.take off ++ bs ++ old.drop (off + bs.length)
 
-inductive LockRes
-  | eof (buf : Bytes)            -- `ReadLock` returns io.EOF (end of file at the first OR the second read); `buf` = buffer afterwards
-  | lenErr                       -- "Lock Len error"
-  | ok (buf : Bytes) (r : Rd)    -- `ReadLock` returns nil; `buf` = the (reused) 64-byte record buffer afterwards
-  deriving Repr
-
-/-- `AofFile.ReadLock` (aof.go 310–339). `old` is the caller's record buffer: ONE buffer for all records of all files
-(`LoadAofFiles` allocates it once). When the SECOND read fails its error (io.EOF) is returned: a torn tail ends the file like
-a clean end does; the buffer keeps the `n` bytes the first read put there. -/
-def readLock (r : Rd) (old : Bytes) : LockRes :=
-  match r.read 64 with
-  | none => .eof old
-  | some (n, r1) =>
-    let b1 := overlay old 0 (r.s.take n)
-    let lockLen := le16 b1 0
-    if n = lockLen + 2 then .ok b1 r1
-    else
-      match r1.read (64 - n) with
-      | none => .eof b1
-      | some (nn, r2) =>
-        let b2 := overlay b1 n (r1.s.take nn)
-        if n + nn = lockLen + 2 then .ok b2 r2 else .lenErr
-
 /-- `Read` in a loop until `k` bytes have arrived (`for n < k { Read(buf[n:]) }`); `none` = io.EOF. On success the bytes
 are the first `k` of the stream. -/
 def readFull : Nat → Rd → Nat → Option Rd
@@ -120,6 +97,29 @@ def readFull : Nat → Rd → Nat → Option Rd
     else match r.read k with
       | none => none
       | some (m, r') => readFull f r' (k - m)
+
+inductive LockRes
+  | eof (buf : Bytes)            -- `ReadLock` returns io.EOF (end of file at the first OR the second read); `buf` = buffer afterwards
+  | lenErr                       -- "Lock Len error"
+  | ok (buf : Bytes) (r : Rd)    -- `ReadLock` returns nil; `buf` = the (reused) 64-byte record buffer afterwards
+  deriving Repr
+
+/-- `AofFile.ReadLock`. `old` is the caller's record buffer: ONE buffer for all records of all files (`LoadAofFiles` allocates
+it once). The rest of a record is read with `io.ReadFull`; a short rest (torn tail, wherever the bufio refills fall) is
+reported as io.EOF like a clean end; the buffer keeps whatever bytes arrived. -/
+def readLock (r : Rd) (old : Bytes) : LockRes :=
+  match r.read 64 with
+  | none => .eof old
+  | some (n, r1) =>
+    let b1 := overlay old 0 (r.s.take n)
+    let lockLen := le16 b1 0
+    if n = lockLen + 2 then .ok b1 r1
+    else
+      match readFull (64 - n) r1 (64 - n) with
+      | none => .eof (overlay b1 n r1.s)
+      | some r2 =>
+        let b2 := overlay b1 n (r1.s.take (64 - n))
+        if n + (64 - n) = lockLen + 2 then .ok b2 r2 else .lenErr
 
 /-- `AofFile.ReadLockData`: 4-byte LE length, then the payload; the result keeps the length prefix. `none` = io.EOF. -/
 def readLockData (d : Rd) : Option (Bytes × Rd) :=
@@ -286,11 +286,42 @@ def applyW (img : Bytes × Bytes) : W → Bytes × Bytes
   | .log b => (img.1 ++ b, img.2)
   | .dat b => (img.1, img.2 ++ b)
 
-/-- Reopen an image in append mode, write `more` through the writer, flush, close. -/
-def appendAfterRestart (cfg : Nat) (rec : Bytes) (dat : Option Bytes) (more : List Rec) : Bytes × Bytes :=
+/-- Where the START-UP load (`LoadAofFile` while `!inited`) cuts the two files: when a record carries the has-value flag and its
+frame is missing / short at the end of the value file — the torn tail of the two-file write — the record file is truncated to
+before that record (`size − 64`) and the value file to the frames read so far. `none` = nothing is cut. -/
+def cutLoop : Nat → Rd → Option Rd → Bytes → Nat → Nat → Option (Nat × Nat)
+  | 0, _, _, _, _, _ => none
+  | f + 1, r, d, buf, off, doff =>
+    match readLock r buf with
+    | .eof _ => none
+    | .lenErr => none
+    | .ok b r' =>
+      let off' := off + 2 + le16 b 0
+      if hasData b then
+        match d with
+        | none => none
+        | some dr =>
+          match readLockData dr with
+          | none => some (off' - 64, doff)
+          | some (blob, dr') => cutLoop f r' (some dr') b off' (doff + blob.length)
+      else cutLoop f r' d b off' doff
+
+/-- The two files after the start-up has loaded them. -/
+def startupFiles (cfg : Nat) (buf : Bytes) (rec : Bytes) (dat : Option Bytes) : Bytes × Option Bytes :=
+  match readHeader (Rd.open (bufioCap (fileBufSize cfg)) rec) with
+  | .error _ => (rec, dat)
+  | .ok r =>
+    match cutLoop (rec.length + 2) r (dat.map (Rd.open (bufioCap (fileBufSize cfg * 64)))) buf (12 + le16 rec 10) 0 with
+    | none => (rec, dat)
+    | some (o, d) => (rec.take o, dat.map (·.take d))
+
+/-- A restart over an image (start-up load with reader buffer `rcfg`, then the append-mode reopen), `more` written through the
+writer (buffer `cfg`), flush, close. -/
+def appendAfterRestart (cfg rcfg : Nat) (rec : Bytes) (dat : Option Bytes) (more : List Rec) : Bytes × Bytes :=
+  let (rec', dat') := startupFiles rcfg (zeros 64) rec dat
   let (groups, w) := Wr.writeAll ⟨fileBufSize cfg, [], []⟩ more
   let ws := groups.flatten ++ w.flush.1
-  ws.foldl applyW (openAppend rec, dat.getD [])
+  ws.foldl applyW (openAppend rec', dat'.getD [])
 
 /-- `Flush` when the write of the record buffer fails (aof.go 517–519): both buffers are dropped. -/
 def Wr.flushFail (w : Wr) : Wr := { w with wbuf := [], dwbuf := [] }
